@@ -65,6 +65,12 @@ type H struct {
 }
 
 func newH(dir, tier string, seed uint64) *H {
+	h := newH0(dir, tier, seed)
+	progressH = h
+	return h
+}
+
+func newH0(dir, tier string, seed uint64) *H {
 	os.MkdirAll(dir, 0o755)
 	cf, err := os.Create(filepath.Join(dir, "cases.txt"))
 	if err != nil {
@@ -79,6 +85,17 @@ func newH(dir, tier string, seed uint64) *H {
 }
 
 func (h *H) Thorough() bool { return h.Tier == "thorough" }
+
+// Progress records the input about to be given to the implementation, for the inputs that can end the process (a fatal
+// error cannot be recovered): if the harness dies, the check reports this input as the replay.
+var progressH *H // the current component's writer, for helpers that have no *H at hand
+
+func (h *H) Progress(s string) {
+	if len(s) > 3000 {
+		s = s[:3000]
+	}
+	os.WriteFile(filepath.Join(h.dir, "progress.txt"), []byte(s+"\n"), 0o644)
+}
 
 // Case records one request and the implementation's canonical answer (to be compared with the model).
 func (h *H) Case(req, implAnswer string) {
